@@ -80,9 +80,11 @@ package corebgp
 //@ joins peer.doneCh peerRunning
 // FSM states: 0 disabled, 1 idle, 2 connect, 3 active, 4 openSent, 5 openConfirm, 6 established
 //@ pure fsmObj(f, p) = f != nil && f.peer == p && f.closeCh != nil && f.doneCh != nil && f.idleHoldTimer != nil && (chanClosed(f.closeCh) == onceDone(f.closeOnce)) && allocated(f.closeCh)
-//@ pure slotInv(p, i) = (p.fsms[i] == nil ==> p.fsmState[i] == 0) && (p.fsms[i] != nil ==> fsmObj(p.fsms[i], p) && fsmRunning(p.fsms[i]) && !chanClosed(p.fsms[i].closeCh) && allocated(p.fsms[i])) && p.fsmState[i] <= 6 && p.transitionCh[i] != nil && p.errorCh[i] != nil
+//@ pure slotInv(p, i) = (p.fsms[i] == nil ==> p.fsmState[i] == 0) && (p.fsms[i] != nil ==> fsmObj(p.fsms[i], p) && fsmRunning(p.fsms[i]) && !chanClosed(p.fsms[i].closeCh) && allocated(p.fsms[i]) && p.fsms[i].closeCh != p.doneCh) && p.fsmState[i] <= 6 && p.transitionCh[i] != nil && p.errorCh[i] != nil
+//@ pure peerInvCore(p) = p != nil && p.startupDelayTimer != nil && p.inConnCh != nil && p.closeCh != nil && p.doneCh != nil && slotInv(p, 0) && slotInv(p, 1) && !(p.fsmState[0] == 6 && p.fsmState[1] == 6) && (p.fsms[0] == nil || p.fsms[0] != p.fsms[1]) && (p.fsms[0] != nil && p.fsms[1] != nil ==> p.fsms[0].closeCh != p.fsms[1].closeCh) && (p.startupDelay == 0 || (60000000000 <= p.startupDelay && p.startupDelay <= 300000000000)) && (p.options.passive ==> p.fsms[0] == nil)
 //@ pure peerInv(p) = p != nil && p.startupDelayTimer != nil && p.inConnCh != nil && p.closeCh != nil && p.doneCh != nil && slotInv(p, 0) && slotInv(p, 1) && !(p.fsmState[0] == 6 && p.fsmState[1] == 6) && (p.fsms[0] == nil || p.fsms[0] != p.fsms[1]) && (p.fsms[0] != nil && p.fsms[1] != nil ==> p.fsms[0].closeCh != p.fsms[1].closeCh) && (p.startupDelay == 0 || (60000000000 <= p.startupDelay && p.startupDelay <= 300000000000)) && (p.inHoldDown ==> p.fsms[0] == nil && p.fsms[1] == nil) && (p.options.passive ==> p.fsms[0] == nil)
 // what the FSM goroutines send to the manager (rely, DESIGN appendix E.3): states in range and
 // OpenConfirm is only ever requested from OpenSent
 //@ chaninv peer.transitionCh(v) = v.to <= 6 && v.from <= 6 && (v.to == 5 ==> v.from == 4)
+//@ chaninv peer.inConnCh(c) = c != nil
 //@ chaninv peer.errorCh(e) = e != nil && (hasType(e, *notificationError) ==> firstOf(e, *notificationError) != nil && firstOf(e, *notificationError).notification != nil)
